@@ -33,8 +33,9 @@ class Injector:
   the unwinding code does afterwards reaches the disk any more (the process is dead).
   """
 
-  def __init__(self, crash_at=None, prefix=0, mode='crash', hard=False, keep_frac=0.0):
+  def __init__(self, crash_at=None, prefix=0, mode='crash', hard=False, keep_frac=0.0, oserror_at=()):
     self.n = 0
+    self.oserror_at = set(oserror_at)   # events that raise an ordinary OSError (the process lives on)
     self.crash_at = crash_at
     self.prefix = prefix
     self.mode = mode
@@ -73,6 +74,8 @@ class Injector:
     self.events.append((kind, info))
     if self.hard:
       self.pending_at.append(sum(f.pending_len() for f in self.open_files))
+    if i in self.oserror_at:
+      raise InjectedIOError('injected I/O error')
     if i == self.crash_at:
       self._raise()
 
@@ -82,6 +85,8 @@ class Injector:
     i = self.n
     self.n += 1
     self.events.append((kind, (info, len(data))))
+    if i in self.oserror_at:
+      raise InjectedIOError('injected I/O error')
     if i == self.crash_at:
       p = min(self.prefix, len(data))
       if p:
@@ -155,6 +160,10 @@ class WFile:
       self._f.flush()
     self._pending.append(data)
     return len(data)
+
+  def writelines(self, lines):
+    for x in lines:
+      self.write(x)
 
   def flush(self):
     if self._inj.hard:
@@ -232,3 +241,117 @@ def mkdtemp(prefix):
   if os.path.isdir(shm) and os.access(shm, os.W_OK | os.X_OK) and not os.environ.get('VERIF_TMP_ON_DISK'):
     return tempfile.mkdtemp(prefix=prefix, dir=shm)
   return tempfile.mkdtemp(prefix=prefix)
+
+
+def in_tree(path, root):
+  """path (str / bytes / PathLike) lies inside the directory tree `root` (any depth)"""
+  try:
+    p = os.path.abspath(os.fsdecode(os.fspath(path)))
+  except TypeError:
+    return False
+  r = os.path.abspath(root)
+  return p == r or p.startswith(r + os.sep)
+
+
+class FsTap:
+  """Routes every file-system effect below `root` (any depth: sub-directories, tempfile.mkdtemp, pathlib)
+  of the code that runs inside the `with` block through an Injector, whatever API it uses:
+  builtins.open / io.open / Path.open (writable modes), os.open + fdopen, os.rename / os.replace /
+  Path.replace / shutil.move, os.remove / os.unlink / Path.unlink / shutil.rmtree, os.mkdir / makedirs /
+  mkdtemp, os.rmdir, os.fsync / fdatasync, os.truncate.  Events are ('open'|'write'|'close'|'rename'|
+  'remove'|'mkdir'|'rmdir'|'fsync'|'truncate', relative name).  `os.sendfile` is refused so that
+  shutil's copy falls back to read/write (its writes become events)."""
+
+  def __init__(self, root, inj):
+    self.root, self.inj = os.path.abspath(root), inj
+    self.fds = {}
+
+  def rel(self, path):
+    try:
+      return os.path.relpath(os.path.abspath(os.fsdecode(os.fspath(path))), self.root)
+    except (TypeError, ValueError):
+      return str(path)
+
+  def __enter__(self):
+    import io
+    import errno
+    tap, inj = self, self.inj
+    self._saved = [(builtins, 'open', builtins.open), (io, 'open', io.open)]
+    for name in ('open', 'rename', 'replace', 'remove', 'unlink', 'rmdir', 'mkdir', 'fsync', 'fdatasync',
+                 'truncate', 'sendfile', 'close'):
+      if hasattr(os, name):
+        self._saved.append((os, name, getattr(os, name)))
+    real = {(m.__name__, n): f for m, n, f in self._saved}
+    r_open = real[('builtins', 'open')]
+
+    def writable(mode):
+      return any(ch in mode for ch in 'wax+')
+
+    def w_open(file, mode='r', *a, **k):
+      if isinstance(file, int):
+        if file in tap.fds and writable(mode):
+          name = tap.fds.pop(file)
+          return WFile(r_open(file, mode, *a, **k), inj, name)
+        return r_open(file, mode, *a, **k)
+      if writable(mode) and in_tree(file, tap.root):
+        inj.event('open', tap.rel(file))
+        return WFile(r_open(file, mode, *a, **k), inj, tap.rel(file))
+      return r_open(file, mode, *a, **k)
+
+    def w_os_open(path, flags, *a, **k):
+      wr = flags & (os.O_WRONLY | os.O_RDWR | os.O_CREAT | os.O_TRUNC | os.O_APPEND)
+      track = wr and (in_tree(path, tap.root) or 'dir_fd' in k and k['dir_fd'] is not None)
+      if track:
+        inj.event('open', tap.rel(path))
+      fd = real[('os', 'open')](path, flags, *a, **k)
+      if track:
+        tap.fds[fd] = tap.rel(path)
+      return fd
+
+    def w_os_close(fd):
+      tap.fds.pop(fd, None)
+      return real[('os', 'close')](fd)
+
+    def two(kind, key):
+      def f(src, dst, *a, **k):
+        if in_tree(src, tap.root) or in_tree(dst, tap.root):
+          inj.event(kind, (tap.rel(src), tap.rel(dst)))
+        return real[key](src, dst, *a, **k)
+      return f
+
+    def one(kind, key):
+      def f(path, *a, **k):
+        if isinstance(path, int):
+          if kind in ('fsync', 'truncate'):
+            inj.event(kind, path)
+        elif in_tree(path, tap.root) and os.path.abspath(os.fsdecode(os.fspath(path))) != tap.root \
+            or k.get('dir_fd') is not None:
+          inj.event(kind, tap.rel(path))
+        return real[key](path, *a, **k)
+      return f
+
+    def w_sendfile(*a, **k):
+      raise OSError(errno.EINVAL, 'sendfile refused by the fault-injection harness')
+
+    builtins.open = w_open
+    io.open = w_open
+    os.open = w_os_open
+    os.close = w_os_close
+    os.rename = two('rename', ('os', 'rename'))
+    os.replace = two('rename', ('os', 'replace'))
+    os.remove = one('remove', ('os', 'remove'))
+    os.unlink = one('remove', ('os', 'unlink'))
+    os.rmdir = one('rmdir', ('os', 'rmdir'))
+    os.mkdir = one('mkdir', ('os', 'mkdir'))
+    os.fsync = one('fsync', ('os', 'fsync'))
+    if hasattr(os, 'fdatasync'):
+      os.fdatasync = one('fsync', ('os', 'fdatasync'))
+    os.truncate = one('truncate', ('os', 'truncate'))
+    if hasattr(os, 'sendfile'):
+      os.sendfile = w_sendfile
+    return self
+
+  def __exit__(self, *exc):
+    for m, n, f in self._saved:
+      setattr(m, n, f)
+    return False
